@@ -722,6 +722,17 @@ class HeaderFam(Family):
                 if n <= (2 if tier == 'quick' else 3):
                     yield dict(kind='cont%d' % n, line=hx(b'#.change: k=v, ' + s))
                     yield dict(kind='kv%d' % n, line=hx(b'#.change: a' + s + b'=b' + s))
+        # the same in a file whose headers end in CRLF (the first header fixes the file's newline style), with CR in
+        # the alphabet: a stray CR before the CRLF is not part of the grammar
+        for n in range(0, (2 if tier == 'quick' else 3) + 1):
+            for tup in itertools.product(ALPHABET16 + [b'\r'], repeat=n):
+                s = b''.join(tup)
+                yield dict(kind='crlf%d' % n, line=hx(b'#.change: ' + s), crlf=True)
+                yield dict(kind='crlf-kv%d' % n, line=hx(b'#.change: a=b' + s), crlf=True)
+        for tail in [b'', b'\r', b'\r\r', b' ', b'\t', b'\r ', b' \r']:
+            for base in [b'#.change:', b'#.change: a=b', b'#.change: a=b, c=1']:
+                yield dict(kind='crlf-tail', line=hx(base + tail), crlf=True)
+                yield dict(kind='lf-tail', line=hx(base + tail))
         for dots in range(0, 5):
             for name in [b'diffx', b'preamble', b'meta', b'change', b'file', b'diff', b'Change', b'changes', b'', b'chang']:
                 for tail in [b':', b'', b'::', b': ', b':  a=b', b': a=b', b':a=b', b':\t', b': a=b ', b' :', b': a=b,c=d',
@@ -752,7 +763,10 @@ class HeaderFam(Family):
 
     def _impl(self, c):
         if '_impl' not in c:
-            data = self.PREFIX + unhx(c['line']) + b'\n'
+            if c.get('crlf'):
+                data = self.PREFIX[:-1] + b'\r\n' + unhx(c['line']) + b'\r\n'
+            else:
+                data = self.PREFIX + unhx(c['line']) + b'\n'
             c['_impl'] = (data,) + sl.run_reader(data)
         return c['_impl']
 
